@@ -3,6 +3,7 @@ C15 — the subscription client obeys the wire protocol and frees its resources 
 -/
 import Genq.Model.Ws
 import Genq.Proofs.WsInv
+import Genq.Proofs.WsFrames
 namespace Genq.Ws
 
 section Lemmas
@@ -107,10 +108,35 @@ theorem C15_fixed_close_under_fault :
     w.calls[1]? = some (.ret false) ∧ w.connCloses = 1 ∧ w.errChanCloses = 1 ∧ w.written = [.init, .subscribe 0, .close] := by
   decide
 
-/-- The full protocol statement (not yet proved for all sequential histories; decided on every
-    correspondence run by the harness's `wsValidConversation` on the frames really written). -/
+/-- **C15_conversation_shape** — for every event list (any interleaving, any write failures): the
+    frames whose write succeeded begin with connection_init, and the subscribe frames handed to
+    the connection carry the ids 0, 1, 2, … each exactly once, in order (no id is ever reused,
+    also after a failed Subscribe). -/
+theorem C15_conversation_shape (order : List SubId) (evs : List Ev) :
+    let w := run Flags.fixed { init with closeOrder := order } evs
+    (∃ l, w.written = .init :: l) ∧ subIds w.frames = List.range w.subs.length := by
+  exact run_logInv { init with closeOrder := order } evs ⟨⟨[], rfl⟩, rfl⟩
+
+/-- **C15_written_only_grows** — a frame once written stays written: along any continuation the
+    log of successful writes is extended, never rewritten. -/
+theorem C15_written_only_grows (w : World) (evs : List Ev) : w.written <+: (run Flags.fixed w evs).written :=
+  run_written_prefix w evs
+
+/-- The full protocol statement (every `complete` follows its `subscribe` and is sent once per
+    id; nothing follows the close frame) holds only for SEQUENTIAL histories — with Unsubscribe
+    racing Close the real client writes two completes — and is decided on every correspondence
+    run by the harness's `wsValidConversation` on the frames really written. -/
 def C15_valid_conversation_full : Prop :=
   ∀ (order : List SubId) (evs : List Ev),
-    (run Flags.fixed { init with closeOrder := order } evs).written.head? = some .init
+    let w := run Flags.fixed { init with closeOrder := order } evs
+    ∀ i, (w.written.filter (· == .complete i)).length ≤ 1
+
+/-- … and it is FALSE for arbitrary interleavings: Unsubscribe(0) racing Close writes `complete 0`
+    twice (an observation about the code, outside the property's sequential quantifier). -/
+theorem C15_valid_conversation_full_refuted : ¬ C15_valid_conversation_full := by
+  intro h
+  have := h [] [.subscribe, .step 0, .unsubscribe 0, .close, .step 2, .step 2, .step 2, .step 1] 0
+  revert this
+  decide
 
 end Genq.Ws
